@@ -274,7 +274,9 @@ def obligations(tier, seed):
         for lt in range(3):
             obs.append(Ob(id="C08.3-override[cap.Type=%s,link.Type=%s]" % (TYPES[ct], TYPES[lt]), body="harness.C08:body_override",
                           sig="cn: bool, ct: int, cnum: bool, cab: bool, ln: bool, lt: int, lnum: bool, lab: bool, lhp: bool, sidecar: bool, addlink: bool, uselink: bool, captail: int, addpath: int",
-                          pre=["ct == %d" % ct, "lt == %d" % lt, "0 <= captail <= 2", "0 <= addpath <= 2"] + (["lhp == False", "addlink == uselink", "captail == (1 if cn else 0)", "addpath == (0 if not addlink else (1 if lab else 2) if sidecar else 0)"] if tier == "quick" else ["addpath == 0 or addlink"]), timeout=300 if tier == "quick" else 1200,
+                          pre=["ct == %d" % ct, "lt == %d" % lt, "0 <= captail <= 2", "0 <= addpath <= 2"] + (["lhp == False", "addlink == uselink", "captail == (1 if cn else 0)", "addpath == (0 if not addlink else (1 if lab else 2) if sidecar else 0)"] if tier == "quick"
+                                else ["captail == (1 if cn else 0) + (1 if cab else 0)", "addpath == ((1 if lab else 0) + (1 if lnum else 0) if addlink else 0)"]),  # tied to other flags: the variants are spread over the subsets instead of multiplying them
+                          timeout=300 if tier == "quick" else 1200,
                           desc="a.txt with an optional .abstract sidecar, a .cap/a.txt block and a `Path=./a.txt` block in .Links, each with a symbolic subset of "
                                "Name/Numb/Abstract(/Host+Port) and the given Type (the .cap file optionally ending in a blank line / a blank line and a comment), plus an added link (whose path is new, or relative/absolute naming an existing file): only the set fields change, X/- hides, the added link is appended, "
                                "the order is the documented one",
